@@ -19,7 +19,8 @@ META = {
         'property for all operands (including the exception raised), modulo operator dispatch.  '
         'Identity shortcuts (`if other is self`) in comparisons are violations (NaN); witness operands include 2**53+1 so that float() detours on int values show.'
         " Also: the unit test of _cmp_op, whatever its spelling, has the decision table of `the units differ` over the units None, '', 'kg', 'm'."
-        ' Also: no exact-type test selects plain numbers in _cmp_op (bool is an int subclass); no binary dunder of the value is called directly.'),
+        ' Also: no exact-type test selects plain numbers in _cmp_op (bool is an int subclass); no binary dunder of the value is called directly.'
+        " Also: Qty is not registered in the numeric tower; self-dunder calls are resolved to the callee's normal form; witnesses tell -0.0 from 0.0."),
     'rule_text': 'one obligation per required dunder method of Qty + _cmp_op paths + class-structure facts; '
                  'discharged by normal-form equality; distinct = distinct (rule, obligation) pairs',
     'trusted_base': ['Python data model dispatch of binary/reflected/unary operators and rich comparisons'],
@@ -77,6 +78,7 @@ def run(ctx):
             ctx.error('C20.D1', 'Qty.%s: body not in a recognised normal form (%s)' % (name, e))
             return
         matched += 1
+        got = _resolve_self_calls(got, nf_of)
         if getattr(ev, 'inverted_unwrap', None) is not None:
             _v(ctx, 'C20.D1', fn, 'Quantity(7, "m") %s 2 raises AttributeError (`.value` of a plain number), and Quantity(7, "m") %s '
                'Quantity(2, "m") hands a Quantity object to the value\'s operator: the unwrapping is done for operands that are '
@@ -221,6 +223,33 @@ def run(ctx):
     ctx.count('operator methods matched', matched)
     ctx.floor('Qty operator methods in normal form', matched, 38)
     ctx.assume('MODE_PINT off: Quantity() builds BasicQuantity, which inherits every method of Qty unchanged')
+
+
+def _resolve_self_calls(nf, nf_of, depth=0):
+    """`self.__add__(x)` inside a method is the normal form of __add__ with its operand replaced by x (an operand the
+    callee unwraps stays unwrapped: U(P x) = U x)"""
+    if depth > 3 or not isinstance(nf, tuple):
+        return nf
+    if nf and nf[0] == 'mcall' and nf[1] == ('name', 'self') and nf[2].startswith('__') and len(nf[3]) == 1:
+        try:
+            callee, _ = nf_of(nf[2])
+        except Exception:
+            return nf
+        arg = _resolve_self_calls(nf[3][0], nf_of, depth + 1)
+
+        def subst(x):
+            if isinstance(x, tuple):
+                if x and x[0] == 'U':
+                    return ('U', arg[1]) if arg[0] in ('P', 'U') else arg
+                if x and x[0] == 'P':
+                    return arg
+                return tuple(subst(y) for y in x)
+            if isinstance(x, list):
+                return [subst(y) for y in x]
+            return x
+        return subst(_resolve_self_calls(callee, nf_of, depth + 1))
+    return tuple(_resolve_self_calls(x, nf_of, depth + 1) if isinstance(x, tuple) else
+                 ([_resolve_self_calls(y, nf_of, depth + 1) for y in x] if isinstance(x, list) else x) for x in nf)
 
 
 def _replace(nf, a, b):
@@ -419,6 +448,18 @@ def _paths(body, conds):
 
 def _structure(ctx, m, spec):
     """Class facts that make Qty's methods the ones a Quantity object uses."""
+    # a Quantity is not announced as a member of the numeric tower: code that trusts numbers.Complex/Real (Fraction's
+    # comparison operators read .real/.imag/.numerator of such operands) would find the attributes missing
+    for c in ast.walk(m.mod(MOD).tree):
+        if isinstance(c, ast.Call) and isinstance(c.func, ast.Attribute) and c.func.attr == 'register' \
+                and norm(c.func.value).startswith(('numbers.', 'Number', 'Real', 'Complex', 'Rational', 'Integral')) and c.args \
+                and norm(c.args[0]) in ('Qty', 'BasicQuantity', 'Quantity', 'PintQuantity'):
+            ctx.violation('C20.D1', '%s::%s' % (F, norm(c)[:50]), norm(c),
+                          'Fraction(1, 2) == Quantity(0.5) (a Fraction on the LEFT of == or !=): Fraction.__eq__ sees an instance of '
+                          '%s, trusts the ABC and reads its .imag / .real, which Qty does not define -- AttributeError where '
+                          'Fraction(1, 2) == 0.5 is simply True' % norm(c.func.value),
+                          '%s is registered as a virtual subclass of %s without implementing that protocol'
+                          % (norm(c.args[0]), norm(c.func.value)), file=F, line=c.lineno, engine='E9')
     cls = m.cls(MOD, 'Qty')
     # no class-level rebinding of dunders
     names = set()
